@@ -773,3 +773,188 @@ def items_source(items):
         else:
             raise AnalysisError('cannot print regex construct %s' % (op,))
     return ''.join(out)
+
+
+# ---------------------------------------------------------------------------------------------------------------
+# exponential ambiguity (EDA): the structural cause of catastrophic backtracking
+def _cs_overlap(a, b):
+    """a code point both classes contain, or None"""
+    if not isinstance(a, CS) or not isinstance(b, CS):
+        return (0 if a == b else None)
+    i = j = 0
+    A, B = a.iv, b.iv
+    while i < len(A) and j < len(B):
+        lo = max(A[i][0], B[j][0])
+        hi = min(A[i][1], B[j][1])
+        if lo <= hi:
+            return lo
+        if A[i][1] < B[j][1]:
+            i += 1
+        else:
+            j += 1
+    return None
+
+
+def exponential_ambiguity(nfa, max_pairs=600000):
+    """Decide whether the automaton of a pattern has *exponential degree of ambiguity* (Weber / Seidl): a state q and a
+    word w with two different runs from q back to q on w.  A backtracking matcher that fails after w^n has then tried
+    2^n runs.  The criterion is checked on the epsilon-free multigraph of the Thompson automaton (one edge per distinct
+    epsilon path + character arc, so that `(?:x+)*` keeps its two ways round) through the product of the automaton with
+    itself: a strongly connected component that holds a diagonal pair (q, q) and an edge on which the two copies take
+    different arcs.  Returns None or a sample of the repeated word (str)."""
+    # useful states: reachable from the start and able to reach the final state
+    succ = collections.defaultdict(set)
+    for s, ts in nfa.eps.items():
+        succ[s] |= set(ts)
+    for s, lst in nfa.tr.items():
+        for _cs, t in lst:
+            succ[s].add(t)
+    pred = collections.defaultdict(set)
+    for s, ts in succ.items():
+        for t in ts:
+            pred[t].add(s)
+
+    def closure(start, rel):
+        seen, todo = {start}, [start]
+        while todo:
+            x = todo.pop()
+            for y in rel.get(x, ()):
+                if y not in seen:
+                    seen.add(y)
+                    todo.append(y)
+        return seen
+    useful = closure(nfa.start, succ) & closure(nfa.final, pred)
+    # epsilon-free multigraph over the "anchor" states (start + targets of character arcs)
+    anchors = {nfa.start} | {t for s, lst in nfa.tr.items() for _cs, t in lst if t in useful}
+    edges = {}      # anchor -> [(cs, target, edge id)]
+    eid = 0
+    for a in anchors:
+        if a not in useful:
+            continue
+        out = []
+        # every simple epsilon path from a, then one character arc
+        stack = [(a, (a,))]
+        n_paths = 0
+        while stack:
+            s, path = stack.pop()
+            for cs, t in nfa.tr.get(s, ()):
+                if t in useful and isinstance(cs, CS):
+                    out.append((cs, t, eid))
+                    eid += 1
+            for t in nfa.eps.get(s, ()):
+                if t in useful and t not in path:
+                    n_paths += 1
+                    if n_paths > 20000:
+                        raise AnalysisError('ambiguity analysis: too many epsilon paths')
+                    stack.append((t, path + (t,)))
+        edges[a] = out
+    # product, explored from the diagonal
+    index = {}
+    nodes = []
+    padj = []       # node -> [(target node, differs, sample code point)]
+
+    def node(p, q):
+        k = (p, q) if p <= q else (q, p)
+        i = index.get(k)
+        if i is None:
+            i = len(nodes)
+            index[k] = i
+            nodes.append(k)
+            padj.append(None)
+        return i
+    todo = [node(a, a) for a in edges]
+    while todo:
+        i = todo.pop()
+        if padj[i] is not None:
+            continue
+        p, q = nodes[i]
+        adj = []
+        ep, eq = edges.get(p, ()), edges.get(q, ())
+        for cs1, t1, id1 in ep:
+            for cs2, t2, id2 in eq:
+                if p == q and id2 < id1:
+                    continue
+                c = _cs_overlap(cs1, cs2)
+                if c is None:
+                    continue
+                j = node(t1, t2)
+                adj.append((j, id1 != id2, c))
+                if padj[j] is None:
+                    todo.append(j)
+        padj[i] = adj
+        if len(nodes) > max_pairs:
+            raise AnalysisError('ambiguity analysis: product automaton too large')
+    # strongly connected components (iterative Tarjan)
+    n = len(nodes)
+    low = [0] * n
+    num = [-1] * n
+    on = [False] * n
+    comp = [-1] * n
+    st = []
+    counter = [0]
+    ncomp = 0
+    for root in range(n):
+        if num[root] != -1:
+            continue
+        work = [(root, 0)]
+        while work:
+            v, pi = work.pop()
+            if pi == 0:
+                num[v] = low[v] = counter[0]
+                counter[0] += 1
+                st.append(v)
+                on[v] = True
+            recurse = False
+            adj = padj[v] or []
+            while pi < len(adj):
+                w = adj[pi][0]
+                pi += 1
+                if num[w] == -1:
+                    work.append((v, pi))
+                    work.append((w, 0))
+                    recurse = True
+                    break
+                elif on[w]:
+                    low[v] = min(low[v], num[w])
+            if recurse:
+                continue
+            if low[v] == num[v]:
+                while True:
+                    w = st.pop()
+                    on[w] = False
+                    comp[w] = ncomp
+                    if w == v:
+                        break
+                ncomp += 1
+            if work:
+                u = work[-1][0]
+                low[u] = min(low[u], low[v])
+    diag = collections.defaultdict(list)
+    for i, (p, q) in enumerate(nodes):
+        if p == q:
+            diag[comp[i]].append(i)
+    for i in range(n):
+        for j, differs, c in padj[i] or ():
+            if comp[i] == comp[j] and comp[i] in diag and (differs or nodes[i][0] != nodes[i][1]):
+                # a cycle through a diagonal pair that uses this edge: sample word = path d -> i, edge, j -> d
+                d = diag[comp[i]][0]
+
+                def path(a, b):
+                    prev = {a: None}
+                    todo2 = [a]
+                    while todo2:
+                        x = todo2.pop(0)
+                        if x == b:
+                            break
+                        for y, _df, ch in padj[x] or ():
+                            if comp[y] == comp[a] and y not in prev:
+                                prev[y] = (x, ch)
+                                todo2.append(y)
+                    out = []
+                    x = b
+                    while prev.get(x) is not None:
+                        x, ch = prev[x]
+                        out.append(ch)
+                    return ''.join(chr(ch) for ch in reversed(out))
+                return path(d, i) + chr(c) + path(j, d)
+    return None
